@@ -57,6 +57,10 @@ func NewHTTPProxy(
 			// connection so theres no overhead to creating new connections,
 			// therefore it doesn't make sense to keep them alive.
 			DisableKeepAlives: true,
+			// Don't add 'Accept-Encoding: gzip' to requests that don't have it
+			// (and decompress the response), the proxy passes requests and
+			// responses through unchanged.
+			DisableCompression: true,
 		},
 		ErrorLog:     logger.StdLogger(zapcore.WarnLevel),
 		ErrorHandler: rp.errorHandler,
